@@ -268,6 +268,8 @@ Lemma array_repeat_sound : forall free len r k,
 Proof.
   intros free len r k Hlen Hf H. unfold array_repeat in H.
   destruct (r <? 0) eqn:Er; [ discriminate |]. apply Z.ltb_ge in Er.
+  destruct (len =? 0) eqn:El.
+  { apply Z.eqb_eq in El. subst len. inversion H. subst k. unfold small_size. repeat split; lia. }
   destruct (make_object_slice free (size_mul len r)) as [[] | | p | g] eqn:M; simpl in H; try discriminate.
   inversion H. subst k.
   destruct (size_mul_spec len r Hlen Er) as [[Hle Heq] | [Hgt Heq]]; rewrite Heq in M.
@@ -283,6 +285,7 @@ Lemma array_repeat_no_panic : forall free len r,
 Proof.
   intros free len r Hlen Hf. unfold array_repeat.
   destruct (r <? 0) eqn:Er; [ reflexivity |]. apply Z.ltb_ge in Er.
+  destruct (len =? 0); [ reflexivity |].
   assert (Hn : 0 <= size_mul len r).
   { destruct (size_mul_spec len r Hlen Er) as [[_ Heq] | [_ Heq]]; rewrite Heq;
       [ nia | unfold max_int, two63; lia ]. }
@@ -336,6 +339,23 @@ Proof.
   destruct (size_ok free (l1 + l2)) eqn:E; simpl in H; [| discriminate].
   inversion H. subst k. split; [ reflexivity |]. apply size_ok_sound; exact E.
 Qed.
+
+Lemma string_concat_sound : forall free l1 l2 k,
+  0 <= l1 -> 0 <= l2 -> l1 + l2 <= max_int ->
+  string_concat free l1 l2 = Val k ->
+  k = l1 + l2
+  /\ (k / object_ObjectSize <= small_size \/ (k / object_ObjectSize) * object_ObjectSize < free).
+Proof.
+  intros free l1 l2 k H1 H2 Hs H. unfold string_concat, must_be_ok in H.
+  rewrite wrap64_id in H by (unfold in_int64, min_int, max_int, two63 in *; lia).
+  rewrite Z.quot_div_nonneg in H by (try exact obj_size_pos; lia).
+  destruct (size_ok free ((l1 + l2) / object_ObjectSize)) eqn:E; simpl in H; [| discriminate].
+  inversion H. subst k. split; [ reflexivity |]. apply size_ok_sound; exact E.
+Qed.
+
+(* as pinned there is no bound at all: doubling a 256 MiB string is accepted with 1 byte free *)
+Lemma string_concat_pinned_unguarded : string_concat_pinned 1 268435456 268435456 = Val 536870912.
+Proof. reflexivity. Qed.
 
 (* ------------------------------------------------------------------ applyExtension validation *)
 Lemma validate_loop_length : forall types args r,
